@@ -56,7 +56,7 @@ class _Enc:
 class C13(Prop):
     id = "C13"
     corr_module = "Corr.C13Corr"
-    quick_n = 1500
+    quick_n = 1000
     thorough_n = 15000
     shard_size = 250
     rule = ("scripted runs of the real Runner with a scripted input stream: text-mode (str units) or byte-mode "
@@ -146,7 +146,15 @@ class C13(Prop):
             case["echo_stdin"] = (e == "true")
         return case
 
+    phases = None
+
+    def setup(self, tier, seed):
+        self.phases = rc.Phases()
+        self.phases.mark("proof build (incl. waiting for the shared build lock)")
+
     def generate(self, rng, tier, n):
+        if self.phases:
+            self.phases.mark("scripted cases + shards")
         for _ in range(n):
             yield self._case(rng)
 
@@ -283,7 +291,13 @@ class C13(Prop):
 
     # ------------------------------------------------------------------ extra
     def extra_checks(self, tier, seed):
-        return [self._encoder_validation(tier, seed), self._real_children(tier, seed)]
+        if self.phases:
+            self.phases.mark("extra checks")
+        res = [self._encoder_validation(tier, seed), self._real_children(tier, seed)]
+        if self.phases:
+            self.phases.mark("end")
+            res.append(self.phases.entry())
+        return res
 
     def _encoder_validation(self, tier, seed):
         import random
@@ -316,13 +330,16 @@ class C13(Prop):
 
     def _real_children(self, tier, seed):
         fails, evals = [], 0
+        budget = rc.ExtraBudget(tier, 30.0)
         for c in real_cases(tier):
+            if c.get("optional") and not budget.allow(c["kind"]):
+                continue
             evals += 1
             f = real_case(c)
             if f:
                 fails.append(f)
         return {"name": "real-children", "evaluations": evals, "failures": fails,
-                "note": "(inputs are short: the worker forwards one read per input_sleep = 10 ms, and keeps "
+                "note": budget.note() + "(inputs are short: the worker forwards one read per input_sleep = 10 ms, and keeps "
                         "pumping a non-terminal stream until it is exhausted even after the child exited) "
                         "real cat / wc -c / head -c children fed from StringIO / BytesIO input streams through "
                         "Local (no pty: EOF must reach the child, which then terminates; broken pipe tolerated), "
@@ -330,29 +347,36 @@ class C13(Prop):
 
 
 def real_cases(tier):
-    texts = ["", "x", "hello\n", "héllo wörld €\n" * 3, "z" * 300 + "\n", "\U0001F600\n" * 40]
+    """required cases first (one representative of every class), then the optional ones: reproductions of
+    known findings and the slow inputs (the worker forwards one read per 10 ms), dropped when the quick
+    tier's time budget for extra checks is used up"""
+    quick = tier == "quick"
     cs = []
-    for t in texts:
+    for t in ["", "x", "hello\n", "héllo wörld €\n" * 3]:
         cs.append({"kind": "cat", "text": t, "mode": "text"})
-    cs.append({"kind": "wc", "text": "héllo\n" * 40, "mode": "text"})
-    cs.append({"kind": "head", "text": "0123456789" * 20, "mode": "text"})
+    cs.append({"kind": "wc", "text": "héllo\n" * (15 if quick else 40), "mode": "text"})
+    cs.append({"kind": "head", "text": "0123456789" * 10, "mode": "text"})
     cs.append({"kind": "cat", "text": "plain ascii bytes\n", "mode": "bytes"})
-    cs.append({"kind": "cat", "text": "héllo", "mode": "bytes"})          # F-C13 on the real runner
     cs.append({"kind": "respond"})
-    cs.append({"kind": "bom"})                           # BOM encodings: the BOM must appear once (F-C13c)
-    cs.append({"kind": "tty-multibyte"})                 # a 2-byte character typed at a real terminal (F-C13d)
+    cs.append({"kind": "respond-no-newline"})            # a response without a line end must still arrive
+    cs.append({"kind": "open-pipe", "buffered": False})  # input not at EOF, no line end: delivered, not held back
     cs.append({"kind": "pipe-eof", "buffered": False})   # `echo hi | ...` shape: data then EOF on a real pipe
     cs.append({"kind": "pipe-eof", "buffered": True})
     cs.append({"kind": "idle-pipe"})                     # pipe held open, nothing fed, command exits at once
     cs.append({"kind": "async-cat"})                     # asynchronous=True with an explicit in_stream
     cs.append({"kind": "default-stdin"})                 # in_stream not given: the interpreter's piped sys.stdin
-    cs.append({"kind": "cat", "text": "0123456789abcdef" * 25 + "\n", "mode": "text"})   # > 300 bytes
-    cs.append({"kind": "respond-no-newline"})     # a response without a line end must still arrive
-    cs.append({"kind": "open-pipe", "buffered": False})   # input not at EOF, no line end: delivered, not held back
-    cs.append({"kind": "open-pipe", "buffered": True})    # same through a buffered text stream (F-C13b)
     cs.append({"kind": "pty-head", "text": "abc\n"})
-    if tier == "thorough":
-        cs = cs * 5
+    # optional
+    cs.append({"kind": "bom", "optional": True})                                   # F-C13c
+    cs.append({"kind": "cat", "text": "héllo", "mode": "bytes", "optional": True})  # F-C13 on the real runner
+    cs.append({"kind": "open-pipe", "buffered": True, "optional": True})           # F-C13b
+    cs.append({"kind": "cat", "text": "\U0001F600\n" * 20, "mode": "text", "optional": True})
+    cs.append({"kind": "cat", "text": "z" * 120 + "\n", "mode": "text", "optional": True})
+    if not quick:
+        cs.append({"kind": "tty-multibyte", "optional": True})                     # F-C13d (about 5 s)
+        cs.append({"kind": "cat", "text": "0123456789abcdef" * 25 + "\n", "mode": "text"})   # > 300 bytes (4 s)
+        cs.append({"kind": "cat", "text": "z" * 300 + "\n", "mode": "text"})
+        cs = cs * 3
     return cs
 
 
@@ -424,7 +448,7 @@ def real_case(c):
         kw["in_stream"] = io.StringIO(c["text"])
         kw["pty"] = True
         cmd = "head -n1"
-    r = rc.run_real(cmd, bound=(6.0 if c.get("buffered") else 15.0) if kind in ("respond-no-newline", "open-pipe")
+    r = rc.run_real(cmd, bound=(3.0 if c.get("buffered") else 12.0) if kind in ("respond-no-newline", "open-pipe")
                     else 12.0 if kind in ("pipe-eof", "idle-pipe", "async-cat") else 30.0, **kw)
     if kind in ("pipe-eof", "idle-pipe"):
         if kind == "idle-pipe":
